@@ -18,6 +18,9 @@ def _project(pr):
     pr.write("src/a.txt", "a")
     pr.write("keep/precious.txt", "p")
     pr.write("outside/far.html", "f")          # reached only through a link from rep/
+    pr.mkdir("rep/empty_dir")                  # empty directories are nobody's output
+    pr.mkdir("rep/deep/only/empty")
+    pr.mkdir("keep/empty_too")
     body = "mkdir -p out_dir rep && echo 1 > out_dir/x.o && echo 1 > out_dir/y.txt && echo 1 > rep/i.html && echo 1 > rep/notes.md && echo 1 > one.bin"
     gen = {"input": [{"paths": ["src"]}], "output": [{"paths": ["out_dir", "one.bin"]}, {"paths": ["rep"], "extensions": ["html"]}], "build": logging_build("gen", body=body)}
     other = {"input": [{"paths": ["src"]}], "output": [{"paths": ["other_out.txt"]}], "build": logging_build("other", body="echo 1 > other_out.txt")}
@@ -53,14 +56,14 @@ def clean_targets_case(pr):
             return {"property": "C12", "expected": "`--clean gen` then runs gen and its dependency dep, never skipping", "observed": "log %s" % log, "zinoma": r.brief()}
     if "s other" in log:
         return {"property": "C08", "expected": "`--clean gen` does not run `other` (outside the closure)", "observed": "log %s" % log}
-    must_survive = ["keep/precious.txt", "outside/far.html", "src/a.txt", "other_out.txt", "rep/notes.md", "keep", "outside"]
+    must_survive = ["keep/precious.txt", "outside/far.html", "src/a.txt", "other_out.txt", "rep/notes.md", "keep", "outside", "rep/empty_dir", "rep/deep/only/empty", "keep/empty_too"]
     for m in must_survive:
         if m in before and m not in after:
-            return {"property": "C12", "expected": "`--clean gen` deletes only gen's and dep's declared outputs and state: %s survives" % m, "observed": "%s is gone; deleted: %s" % (m, sorted(before - after)[:12]), "zinoma": r.brief()}
+            return {"property": ["C12", "C08"] if m == "other_out.txt" else "C12", "expected": "`--clean gen` deletes only gen's and dep's declared outputs and state: %s survives" % m, "observed": "%s is gone; deleted: %s" % (m, sorted(before - after)[:12]), "zinoma": r.brief()}
     st_other = [p for p in before if p.startswith(".zinoma/") and "other" in p]
     for p in st_other:
         if p not in after:
-            return {"property": "C12", "expected": "the recorded state of `other` (%s) is not touched by `--clean gen`" % p, "observed": "it is gone", "zinoma": r.brief()}
+            return {"property": ["C12", "C08"], "expected": "the recorded state of `other` (%s) is not touched by `--clean gen`" % p, "observed": "it is gone", "zinoma": r.brief()}
     # other must still be skipped afterwards (its state and outputs are intact)
     pr.clear_log()
     pr.run("other")
@@ -110,7 +113,7 @@ def clean_all_case(pr):
     for m in ("out_dir", "one.bin", "rep/i.html", "other_out.txt", "dep_out.txt", "lib/lib_out.txt", ".zinoma", "lib/.zinoma"):
         if m in before and m in after:
             return {"property": "C12", "expected": "`--clean` alone removes every declared output of every loaded project and all recorded state: %s" % m, "observed": "%s is still there" % m, "zinoma": r.brief()}
-    for m in ("keep/precious.txt", "outside/far.html", "src/a.txt", "rep/notes.md", "keep", "outside"):
+    for m in ("keep/precious.txt", "outside/far.html", "src/a.txt", "rep/notes.md", "keep", "outside", "rep/empty_dir", "rep/deep/only/empty", "keep/empty_too"):
         if m in before and m not in after:
             return {"property": "C12", "expected": "`--clean` deletes nothing else: %s survives" % m, "observed": "%s is gone; deleted: %s" % (m, sorted(before - after)[:14]), "zinoma": r.brief()}
     return None
